@@ -165,7 +165,7 @@ def mutate(t, rng, tg, n=1):
         elif op == "rename":
             node[1] = rng.choice(known)
         elif op == "unknown":
-            node[1] = rng.choice(["zzUnknown", "Dataset", "", "título", "a b"])
+            node[1] = rng.choice(["zzUnknown", "Dataset", "", "título", "a b", "data", "meta", "a", "metadat", "Metadata"])
         elif op == "content":
             node[2] = rng.choice([None, "", rand_text(rng), "12", "abc", "-1", "nan", "1e999", "http://x"])
         elif op == "typed":
